@@ -238,6 +238,13 @@ func checkC11(c c11Case) (ci caseInfo, err error) {
 						v.U = uint64(op.N+i) % 200
 					}
 					fills[i].Elem = &v
+				} else if e != nil && model.IsFloat(fills[i].Kind) {
+					// zeros of both signs among a few exactly representable values: +0 and -0 compare equal but are
+					// different values (different print, different bytes)
+					fv := []uint64{0, 0x8000000000000000, 0x3FF8000000000000, 0x8000000000000000, 0, 0xBFF8000000000000, 0x3FE0000000000000, 0x4000000000000000}
+					fills[i].Elem = &model.Elem{F: fv[(op.N+i)%len(fv)]}
+				} else if e != nil && fills[i].Kind == model.BOOLEAN {
+					fills[i].Elem = &model.Elem{T: (op.N+i)%2 == 0}
 				}
 			}
 			fill := map[string]interface{}{}
